@@ -110,6 +110,43 @@ the correspondence runs at the thorough size and agrees, and the check prints an
 | id | property | kind | files | refactoring | check |
 |---|---|---|---|---|---|""")
 body += H
+# 12.3 mutation measurement
+if os.path.exists('/verif/seeded/mutants/summary.json'):
+    S = json.load(open('/verif/seeded/mutants/summary.json'))
+    body.append(f"""
+### 12.3 Systematic mutants: a measurement, and what it changed
+
+`tools/mutate.py` enumerates one-token mutations of the 22 source files the properties are anchored in (comparison and
+arithmetic operators, `and`/`or`, dropped `not` / unary minus / `.copy()` / `.T` / `.transpose()`, small integer constants
++-1, boolean constants, `axis`, `order`, swapped arguments of two-argument calls, slice bounds; function bodies only, at most
+10-40 per function): {S['generated']} mutants. A mutant that fails the 208 doctests is not a realistic breakage and is dropped
+({S['tests']}). Each of the remaining {S['green']} was run against the quick checks of the properties anchored in its file (drift
+detector off, i.e. plain quick size) by twelve workers, each with a private worktree of /repo and a private copy of /verif.
+First pass: {S['killed_first']} killed ({S['killed_first_pct']}%), {S['survived_first']} survived. {S['triaged']} survivors were
+triaged by independent sub-agents that saw only the property texts and the mutation list (`tools/triage_prompt.py`):
+{S['equivalent']} equivalent (transpose of a 1-d array, commutative arguments, unreachable branch ...), {S['no_property']}
+change behaviour without violating any of the twenty properties (an internal search direction, a log line, an exception
+class, a later statement rejects the request), {S['violating']} violate a property, each with a demonstration script
+(`seeded/mutants/violating_survivors.json`, `seeded/mutants/demos/`). What the violating survivors had in common, and what
+was changed:
+
+* **The check died instead of reporting** (15): the family called the implementation bare on an input it has to
+  answer, the mutant made it raise, the harness ended with exit 2. `run.py` now re-evaluates case by case; an exception
+  inside the package under test on such an input is a violation with that case as the replay (`robust_evaluate`).
+* **Input classes never generated** (the rest), repaired per property by strengthening builders that were given the
+  classes: Python lists / NumPy scalars / one-element lists as keys, unrecognised key objects, `extract` called directly,
+  the empty dense start (C04); receivers without nonzeros, already-symmetric data, empty mode selections, object identity
+  (C05); `precompinds=False` on sparse data and the L-BFGS memory options (C11); admissible and inadmissible data for every
+  GCP objective through `setup` and `gcp_opt`, random / list / ktensor starts, `zeros` without replacement, non-unit-weight
+  starts (C13); zero / negative extents, cancelling out-of-range entries, wrong-length regions, typed components, and
+  operands of an unsupported TYPE for every binary operation (C19); `np.random.uniform` arguments (C20); `spmatrix` and
+  Tucker tensors with scipy.sparse factor matrices (C01 / C14).
+* **Genuine defects found on the way** by the new input classes and repaired in /repo: {S['defects']}.
+
+Re-run of all first-pass survivors against the strengthened checks: {S['rerun_killed']} of {S['rerun_total']} now killed; of the
+{S['violating']} triaged as violating, {S['violating_killed']} are killed{S['violating_left_text']}. The remaining survivors are the
+equivalent / no-property classes plus {S['untriaged']} not yet triaged (listed in `seeded/mutants/untriaged_survivors.json`).
+""")
 text = open('/verif/DESIGN.md').read()
 new = "\n".join(body)
 if '## 12. Seeded changes' in text:
